@@ -227,8 +227,9 @@ def decode(heap, sentinels=None):
         lay = cell['k']
         o = objs[a]
         if lay == 'dict':
+            setitem = OrderedDict.__setitem__ if isinstance(o, OrderedDict) else dict.__setitem__
             for k, v in cell['v']:
-                dict.__setitem__(o, dv(k), dv(v))
+                setitem(o, dv(k), dv(v))
         elif lay == 'list':
             list.extend(o, [dv(x) for x in cell['v']])
         elif lay == 'set' and isinstance(o, set):
